@@ -354,15 +354,11 @@ def find_urls(data: bytes) -> list[Node]:
                 group = group[:close]
         if not is_url(group):
             continue
-        out.append(
-            Node(
-                URL_TYPE,
-                *normalize_percent_encoding(group),
-                start,
-                end,
-                children=parse_url(group),
-            )
-        )
+        url, obfuscation = normalize_percent_encoding(group)
+        if not is_url(url):
+            continue
+        # The parts index into the node's value, so they are parsed from the normalized url
+        out.append(Node(URL_TYPE, url, obfuscation, start, end, children=parse_url(url)))
     return out
 
 
